@@ -201,6 +201,9 @@ def inject(scratch, crates, files_by_crate, notes, pid):
             raise Undecided(f"lost anchor: {lib} missing")
         dst = os.path.join(root, "src", "verif_kani")
         os.makedirs(dst, exist_ok=True)
+        # many #[kani::stub] attributes on one harness exceed rustc's default macro recursion limit
+        lib_src = open(lib, encoding="utf-8").read()
+        open(lib, "w", encoding="utf-8").write('#![cfg_attr(kani, recursion_limit = "1024")]\n' + lib_src)
         allow = "#[allow(dead_code, unused_imports, unused_variables, unused_mut, static_mut_refs, unused_unsafe, clippy::all)]"
         for f in sorted(files_by_crate[crate]):
             base = os.path.basename(f)
@@ -211,7 +214,7 @@ def inject(scratch, crates, files_by_crate, notes, pid):
             if not os.path.exists(tfile):
                 raise Undecided(f"lost anchor: injection target {target} missing")
             with open(tfile, "a") as fh:
-                fh.write(f"\n#[cfg(kani)]\n{allow}\n#[path = \"{os.path.join(dst, base)}\"]\nmod {mod};\n")
+                fh.write(f"\n#[cfg(kani)]\n{allow}\n#[path = \"{os.path.join(dst, base)}\"]\npub(crate) mod {mod};\n")
             notes.append(f"harness module {mod} appended to {os.path.relpath(tfile, scratch)} of the scratch copy under cfg(kani)")
     cargo = os.path.join(scratch, "Cargo.toml")
     with open(cargo, "a") as fh:
@@ -225,19 +228,19 @@ def inject(scratch, crates, files_by_crate, notes, pid):
 # ----------------------------------------------------------------------------------------------
 # running Kani
 # ----------------------------------------------------------------------------------------------
-def _limits():
+def _limits(gb=None):
     os.setsid()
-    lim = MEM_LIMIT_GB * (1 << 30)
+    lim = (gb or MEM_LIMIT_GB) * (1 << 30)
     try:
         resource.setrlimit(resource.RLIMIT_AS, (lim, lim))
     except Exception:
         pass
 
 
-def run_cmd(cmd, cwd, timeout, limit_mem=False):
+def run_cmd(cmd, cwd, timeout, limit_mem=False, mem_gb=None):
     t0 = time.time()
     p = subprocess.Popen(cmd, cwd=cwd, env=ENV, stdout=subprocess.PIPE, stderr=subprocess.STDOUT, text=True,
-                         preexec_fn=_limits if limit_mem else os.setsid)
+                         preexec_fn=(lambda: _limits(mem_gb)) if limit_mem else os.setsid)
     try:
         out, _ = p.communicate(timeout=timeout)
         rc = p.returncode
@@ -300,9 +303,15 @@ def run_harness(scratch, ob, tier):
     if ob["crate"] == "may_queue":
         cmd += ["-p", "may_queue"]
     cmd += ["--harness", ob["harness"], "--exact"]
-    rc, out, dt = run_cmd(cmd, scratch, timeout, limit_mem=True)
+    rc, out, dt = run_cmd(cmd, scratch, timeout, limit_mem=True, mem_gb=int(ob["mem"]) if ob.get("mem") else None)
     res = parse_kani(out)
     res.update(rc=rc, wall=dt, out=out, cmd=" ".join(cmd))
+    try:
+        ld = os.path.join(VERIF, ".cache", "logs")
+        os.makedirs(ld, exist_ok=True)
+        open(os.path.join(ld, ob["obligation"] + ".log"), "w").write(out)
+    except Exception:
+        pass
     return res
 
 
@@ -316,6 +325,8 @@ def classify(ob, res):
     if res["verdict"] is None:
         why = "timeout" if "TIMEOUT after" in out else "no verdict (tool crash, out of memory or compile error)"
         return "undecided", {"why": why, "tail": "\n".join(out.splitlines()[-25:])}
+    if "Out of memory" in out or "CBMC failed with status" in out:
+        return "undecided", {"why": "CBMC ran out of memory or crashed", "tail": "\n".join(out.splitlines()[-12:])}
     prop_fail = [f for f in res["failed"] if PROP_ASSERT_RE.match(f["desc"])]
     other_fail = [f for f in res["failed"] if not PROP_ASSERT_RE.match(f["desc"])]
     tool_fail = [f for f in other_fail if UNSUPPORTED_PAT.search(f["desc"])]
@@ -666,17 +677,35 @@ def decide(pid, tier):
                     sup = os.path.join(KANI_DIRS[c], "support.rs")
                     if os.path.exists(sup):
                         files_by_crate[c].add(sup)
+                    # transitive `//@ file-needs: a b` dependencies between harness files
+                    todo = list(files_by_crate[c])
+                    while todo:
+                        f = todo.pop()
+                        for line in open(f, encoding="utf-8"):
+                            m = re.match(r"^\s*//@\s*file-needs:\s*(.*)$", line)
+                            if m:
+                                for dep in m.group(1).split():
+                                    dp = os.path.join(KANI_DIRS[c], dep + ".rs")
+                                    if os.path.exists(dp) and dp not in files_by_crate[c]:
+                                        files_by_crate[c].add(dp)
+                                        todo.append(dp)
                 inject(scratch, crates, files_by_crate, notes, pid)
                 build_s = kani_build(scratch, crates)
                 log(f"[{pid}] kani codegen done in {build_s:.1f}s; running {len(kani_obs)} harnesses, {JOBS} parallel")
-                with cf.ThreadPoolExecutor(max_workers=JOBS) as ex:
-                    futs = {ex.submit(run_harness, scratch, o, tier): o for o in kani_obs}
-                    for fu in cf.as_completed(futs):
-                        o = futs[fu]
-                        res = fu.result()
-                        st, det = classify(o, res)
-                        results[o["obligation"]] = (o, st, det, res)
-                        log(f"[{pid}]   {o['obligation']:<12} {st:<10} {res['wall']:.1f}s  {o['harness']}")
+                # phase 1: ordinary harnesses in parallel; phase 2: memory-hungry ones (//@ mem: GB) two at a time
+                light = [o for o in kani_obs if not o.get("mem")]
+                heavy = [o for o in kani_obs if o.get("mem")]
+                for group, jobs in ((light, JOBS), (heavy, 2)):
+                    if not group:
+                        continue
+                    with cf.ThreadPoolExecutor(max_workers=jobs) as ex:
+                        futs = {ex.submit(run_harness, scratch, o, tier): o for o in group}
+                        for fu in cf.as_completed(futs):
+                            o = futs[fu]
+                            res = fu.result()
+                            st, det = classify(o, res)
+                            results[o["obligation"]] = (o, st, det, res)
+                            log(f"[{pid}]   {o['obligation']:<12} {st:<10} {res['wall']:.1f}s  {o['harness']}")
         except Undecided as e:
             for o in kani_obs:
                 if o["obligation"] not in results:
